@@ -4,7 +4,7 @@ the serialisers*, and every effect they have on the file system is recorded.
 
 Assumed contract (trusted; this is what the bounded C13 check exercises with killed processes):
   open(p, 'w'|'wb')      creates or truncates p (one effect); the empty file does not decode
-  pik.dump(obj, f)       json / dill: either the encoder rejects a value -- it raises an exception that is not an OSError,
+  pik.dump(obj, f)       json / dill: either the encoder rejects a value (never for the empty dict literal) -- it raises an exception that is not an OSError,
                          having written some prefix (an undecodable content) -- or it writes the text in two effects: an
                          undecodable prefix, then the complete encoding c with  Dec(c) = obj
   closing a file         no further effect (what was written is with the operating system)
@@ -193,7 +193,9 @@ class FsCase(object):
         if not isinstance(f, FileObj) or not f.mode.startswith('w'):
             raise Unsupported('pik.dump into %r' % (ca.pos[1],))
         out = []
-        for (s, good) in I.branch(st, fresh('encodes', BOOL), 'encodes', 'encoder-rejects'):
+        raw = st.get(ca.pos[0])
+        always = isinstance(raw, ConcDict) and not raw.items          # the empty dict literal: every encoder accepts it
+        for (s, good) in ([(st, True)] if always else I.branch(st, fresh('encodes', BOOL), 'encodes', 'encoder-rejects')):
             fs = _fs(s)
             part = fresh('partial_text', Val)
             s1 = _effect(s, 'write-part', Fs(fs.exists, z3.Store(fs.data, f.path, part)))
@@ -359,6 +361,42 @@ def obligations():
                     good = read_is(fs0, F, ro)
             obs.append(Obligation(fn + '/returns_fresh_dict_of_contents', s.pc, good, prop='C03', func=fn, path=path, info={'case': 'fs', 'op': plabel}))
             obs.append(Obligation(fn + '/no_effect', s.pc, z3.BoolVal(not s.ghost.get('fs_trace')), prop='C03', func=fn, path=path,
+                                  info={'case': 'fs', 'op': plabel}))
+    # ---------------------------------------------------------------- __init__: opening an archive
+    for protocol, plabel in ((NONE, 'protocol=None (dill)'), (StrV('json'), "protocol='json'")):
+        fn = '_archives:file_archive.__init__'
+        st, ref0, F, fs0 = case.fresh(protocol)
+        OLD = DictObj.symbolic('old', 'Val')
+        st.assume(*OLD.facts())
+        st.assume(read_is(fs0, F, OLD))
+        I.cur_func = fn
+        try:
+            kw = {} if isinstance(protocol, NoneV) else {'protocol': protocol}
+            outs = I.call(st.fork(), case.fa, CallArgs([StrV('store.arc')], kw))
+        except Unsupported as e:
+            obs.append(Obligation(fn + '/supported', [], z3.BoolVal(False), prop='C13', func=fn, path='%s: %s' % (plabel, e),
+                                  info={'case': 'fs', 'op': plabel, 'unsupported': str(e)}))
+            continue
+        for (s, r) in outs:
+            path = plabel + ' | ' + ('/'.join(s.labels) or 'straight')
+            trace = s.ghost.get('fs_trace', ())
+            fs1 = _fs(s)
+            # an existing file -- readable or not -- is never written by merely opening the archive
+            obs.append(Obligation(fn + '/existing_file_is_not_touched', s.pc, z3.Implies(fs0.exists[F], z3.BoolVal(len(trace) == 0)), prop='C13', func=fn,
+                                  path=path, info={'case': 'fs', 'op': plabel}))
+            for i, (elabel, fsi) in enumerate(trace):
+                obs.append(Obligation(fn + '/every_crash_point_reads_old_or_new', s.pc, read_is(fsi, F, OLD), prop='C13', func=fn,
+                                      path='%s | after effect %d (%s)' % (path, i, elabel), info={'case': 'fs', 'op': plabel}))
+            obs.append(Obligation(fn + '/contents_unchanged_by_opening', s.pc, z3.And(z3.BoolVal(not isinstance(r, Exc)), read_is(fs1, F, OLD)), prop='C04', func=fn,
+                                  path=path, info={'case': 'fs', 'op': plabel}))
+            good = False
+            if isinstance(r, Ref):
+                o = s.get(r)
+                stt = o.attrs.get('__state__') if hasattr(o, 'attrs') else None
+                items = dict(s.get(stt).items) if isinstance(stt, Ref) and s.get(stt).kind == 'concdict' else {}
+                good = isinstance(items.get('id'), StrV) and items['id'].s == 'store.arc' and isinstance(items.get('serialized'), BoolV) \
+                    and z3.is_true(z3.simplify(items['serialized'].term)) and repr(items.get('protocol')) == repr(protocol)
+            obs.append(Obligation(fn + '/records_location_and_encoding', s.pc, z3.BoolVal(bool(good)), prop='C04', func=fn, path=path,
                                   info={'case': 'fs', 'op': plabel}))
     # ---------------------------------------------------------------- the mutating mapping methods, end to end
     # (real glue + real __asdict__/__save__): every effect of every operation leaves old or final contents readable
